@@ -129,7 +129,7 @@ pub fn dispatch(prop: &str, tier: &str) -> i32 {
         "C02" | "C03" | "C04" => {
             let mut cfg = crate::base_cfg(prop, tier);
             let (mode, runs, rule) = match prop {
-                "C02" => (diff::DiffMode::Optimizer, if quick { 4000 } else { 300_000 }, "one run = random tables + 6 generated queries executed twice in fresh worlds with identical knobs and scheduling policy, differing only in SET enable_optimizer; rows compared as bags (sortedness under ORDER BY, count only where the query is legitimately non-deterministic)"),
+                "C02" => (diff::DiffMode::Optimizer, if quick { 3000 } else { 300_000 }, "one run = random tables + 6 generated queries executed twice in fresh worlds with identical knobs and scheduling policy, differing only in SET enable_optimizer; rows compared as bags (sortedness under ORDER BY, count only where the query is legitimately non-deterministic)"),
                 "C03" => (diff::DiffMode::Config, if quick { 2500 } else { 200_000 }, "one run = random tables + 6 generated statements (queries, CREATE TABLE AS, INSERT..SELECT followed by SELECT *) executed in the reference configuration (1 partition, batch 2048, canonical schedule) and in 2-3 random configurations (partitions 1-16, batch 1-8192, hash joins on/off, random policy); rows and reported counts compared"),
                 _ => (diff::DiffMode::Schedule, if quick { 2500 } else { 200_000 }, "one run = random tables + 6 generated statements executed under the canonical schedule and under 3 other scheduling policies (one with spurious/duplicate/delayed wake-ups), identical knobs; invariants: no lost wake-up (strict mode), step bound, same rows as the sequential run, finished tasks never polled again"),
             };
